@@ -32,7 +32,7 @@ CLAIMED = {
              text="verify() of both proof formats: every reported item is a leaf proven under one single root, nothing else is reported, block number / offset copied; the client's signed message is rebuilt from the verified value; the stake-distribution leaf encoding is checked for injectivity (fails: known finding F-C11-1, replayed on the real code; holds for fixed-length identifiers).",
              note="MKMapProof verify/contains (ckb MMR) and decoding are callee contracts; tx/block leaf encoding injectivity and SHA-256 message match assumed.", ref="§4 C11"),
  "C16": dict(cat="proof", tech=VX + " (the common verification function the aggregator's authenticator relies on)",
-             text="PARTIAL: MultiSigner::verify_single_signature verified on its extracted text: acceptance implies validity under the key registered at the slot the signature names; the obligation C16 needs - that this slot belongs to the party the submission names - does not follow (known finding F-C16-1, replayed on real keys).",
+             text="PARTIAL: MultiSigner::verify_single_signature verified on its extracted text: acceptance implies validity under the key registered at the slot the signature names AND that this key is the one registered by the party the submission names (the pinned code lacked the second part: finding F-C16-1, found, replayed on real keys and repaired); SignerBuilder::new builds that party-id -> key table from each signer's own key (C06 unit).",
              note="Only this function; the aggregator's storing, buffering and publishing paths (async, SQLite) are not decided. mithril-stm verification is a callee contract (C01).", ref="§0.2 C16"),
  "C17": dict(cat="proof", tech=KV + " (full 64-bit domain) + " + VX,
              text="Per-call postconditions of the real beacon functions proved by Kani/CBMC for all 2^192 inputs; the extracted text of the same functions verified by Verus against the mathematical spec, from which monotonicity, whole-step and block-range-boundary clauses are derived as lemmas. time_point_to_signed_entity proved to be a function of its arguments with the beacon callee as contract stub.",
